@@ -16,6 +16,13 @@
 //     computed exactly), 2 unrestricted random doubles, nodes, node +- support in one direction (closed support
 //     boundary), the same +- 2^-30 (just inside / just outside), the domain corners -1 / +1 and a point outside the domain.
 //
+//   wddump <s> <nrandom> <seed> [cap]     (C05, derivative modes of the tree walk; same probe points as wdump)
+//       o dmeta (as wmeta) / o didx n*d i.. / o dsurp n*outs v..
+//     then for every probe point x:
+//       o dx d x..
+//       o d4i k i.. / o d4v k*d v..  the private walkTree<4>(work, x, sindx, svals, nullptr): indexes in visiting order, gradient vectors
+//       o ddf outs*d y..             differentiate(x) (when surp=1; walkTree<3>)
+//
 // tsgdrv.cpp is compiled into this file unchanged (its main() is renamed); same fork-per-case loop.
 #define main tsgdrv_main_unused
 #include "tsgdrv.cpp"
@@ -94,6 +101,64 @@ static bool run_extra(const std::string &line) {
     return true;
 }
 
+// C05 tree walk: the derivative modes.  Probe points are generated exactly as in wdump (binary rules only).
+static void wddump(Slot &s, int nr, uint64_t seed, int cap) {
+    TasmanianSparseGrid &g = s.g;
+    if (!g.isLocalPolynomial()) throw std::runtime_error("driver: wddump needs a local polynomial grid");
+    const GridLocalPolynomial *lp = g.get<GridLocalPolynomial>();
+    int d = lp->num_dimensions, outs = lp->num_outputs;
+    const MultiIndexSet &work = (lp->points.empty()) ? lp->needed : lp->points;
+    int n = work.getNumIndexes();
+    if (cap > 0 && n > cap) { printf("o dskip %d\n", n); return; }
+    bool surp = (!lp->points.empty()) && outs > 0 && (int) lp->surpluses.getNumStrips() == n && (int) lp->surpluses.getStride() == outs;
+    printf("o dmeta erule=%d order=%d dims=%d outs=%d n=%d set=%s surp=%d\n", (int) lp->effective_rule, lp->order, d, outs, n,
+           lp->points.empty() ? "needed" : "points", surp ? 1 : 0);
+    pi("didx", work.indexes);
+    if (surp) pd("dsurp", lp->surpluses.data(), (size_t) n * (size_t) outs);
+    if (n == 0) return;
+    std::vector<double> pts = g.getPoints(), sup = g.getHierarchicalSupport();
+    auto rnd = [&]() -> double { seed = mix(seed + 0x9e3779b97f4a7c15ULL); return (double) (seed >> 11) / 9007199254740992.0; };
+    auto lattice = [&](double v) -> double { return std::floor(v * 1099511627776.0) / 1099511627776.0; };
+    std::vector<std::vector<double>> X;
+    for (int i = 0; i < nr; i++) { std::vector<double> x(d); for (int j = 0; j < d; j++) x[j] = lattice(-1.0 + 2.0 * rnd()); X.push_back(x); }
+    for (int i = 0; i < 2; i++) { std::vector<double> x(d); for (int j = 0; j < d; j++) x[j] = -1.0 + 2.0 * rnd(); X.push_back(x); }
+    for (int i = 0; i < 3; i++) { size_t p = (size_t) (rnd() * n) % n; X.emplace_back(pts.begin() + p * d, pts.begin() + (p + 1) * d); }
+    const double eps = 1.0 / 1073741824.0;
+    for (int i = 0; i < 8; i++) {
+        size_t p = (size_t) (rnd() * n) % n; int dir = (int) (rnd() * d) % d; double sg = (rnd() < 0.5) ? -1.0 : 1.0;
+        std::vector<double> x(pts.begin() + p * d, pts.begin() + (p + 1) * d);
+        if (rnd() < 0.5) for (int j = 0; j < d; j++) if (j != dir) x[j] = lattice(-1.0 + 2.0 * rnd());
+        int kind = i % 4;   // 0,1: exactly on the closed boundary; 2: just inside; 3: just outside
+        x[dir] = pts[p * d + dir] + sg * sup[p * d + dir];
+        if (kind == 2) x[dir] -= sg * eps;
+        if (kind == 3) x[dir] += sg * eps;
+        X.push_back(x);
+    }
+    { std::vector<double> x(d, 1.0); X.push_back(x); for (int j = 0; j < d; j++) x[j] = (rnd() < 0.5) ? -1.0 : 1.0; X.push_back(x);
+      for (int j = 0; j < d; j++) x[j] = lattice(-1.0 + 2.0 * rnd()); x[(int) (rnd() * d) % d] = (rnd() < 0.5) ? -1.0 - eps : 1.0 + eps; X.push_back(x); }
+    for (auto &x : X) {
+        pd("dx", x);
+        std::vector<int> si; std::vector<double> sv;
+        lp->walkTree<4>(work, x.data(), si, sv, nullptr);
+        pi("d4i", si); pd("d4v", sv);
+        if (surp) { std::vector<double> jac((size_t) outs * (size_t) d, 0.0); lp->differentiate(x.data(), jac.data()); pd("ddf", jac); }
+    }
+}
+
+static bool run_extra_diff(const std::string &line) {
+    Tok k; { std::istringstream ss(line); std::string t; while (ss >> t) k.t.push_back(t); }
+    if (k.t.empty() || k.t[0] != "wddump") return false;
+    k.next();
+    printf("c %s\n", line.c_str()); fflush(stdout);
+    try { Slot &s = S(k.next()); int nr = k.ni(); uint64_t seed = (uint64_t) k.ni(); int cap = k.more() ? k.ni() : 0; wddump(s, nr, seed, cap); }
+    catch (std::invalid_argument &e) { printf("x invalid_argument %s\n", e.what()); }
+    catch (std::runtime_error &e) { if (strncmp(e.what(), "driver:", 7) == 0) printf("x driver %s\n", e.what()); else printf("x runtime_error %s\n", e.what()); }
+    catch (std::out_of_range &e) { printf("x driver out_of_range %s\n", e.what()); }
+    catch (std::exception &e) { printf("x other:%s %s\n", typeid(e).name(), e.what()); }
+    fflush(stdout);
+    return true;
+}
+
 int main(int argc, char **argv) {
     if (argc < 2) { fprintf(stderr, "usage: walkdrv script [workdir] [case-timeout-seconds]\n"); return 2; }
     if (argc > 2) workdir = argv[2];
@@ -109,7 +174,7 @@ int main(int argc, char **argv) {
         pid_t pid = fork();
         if (pid == 0) {
             verif_case_limit(case_timeout);
-            for (auto &l : c) if (!run_extra(l)) run_guarded(l);
+            for (auto &l : c) if (!run_extra(l) && !run_extra_diff(l)) run_guarded(l);
             fflush(stdout);
             _exit(0);
         }
